@@ -175,7 +175,9 @@ def main(tier, replay=None):
                               {"case": case, "string": ev["string"], "event": family.clean_json(ev), "verdict": [kind, detail]})
             if l == 1 and len(rep.cov["samples"]) < 3:
                 rep.sample({"string": ev["string"], "tree": ev["rel"], "outcome": ev["outcome"], "rows": [__import__("rows").row_str(r) for r in ev["rows"]], "verdict": [kind, detail]})
-    n_ir = ir_conformance(rep, rd, cases, tier) if not replay else 0
+    from vcommon import drift_tier
+
+    n_ir = drift_tier(PROP, "parser-IR", lambda: ir_conformance(rep, rd, cases, tier), default=0) if not replay else 0
     shutil.rmtree(rd, ignore_errors=True)
     return rep.finish({
         "evaluations": n_ev,
